@@ -10,15 +10,20 @@ import PyGqlModel.Props.C06_typed
 import PyGqlModel.Props.C06_skip
 import PyGqlModel.Props.C06_input
 import PyGqlModel.Props.C06_ctx
+import PyGqlModel.Props.C06_spreads
 namespace PyGql.Props.C06
 open PyGql PyGql.Validate PyGql.Validate.Spec
 
 def ProvedTyped : List Rule :=
   [.fieldsOnCorrectType, .scalarLeafs, .knownArgumentNames, .providedRequiredArguments, .fragmentsOnCompositeTypes,
    .uniqueInputFieldNames, .knownDirectives]
-def ProvedAll : List Rule := Proved ++ ProvedTyped
+/-- rules whose specification predicate depends on the ORDER of definitions when fragment names are not unique
+    (the last definition of a name wins) -/
+def ProvedOrder : List Rule := [.possibleFragmentSpreads]
+def ProvedPermDefs : List Rule := Proved ++ ProvedTyped
+def ProvedAll : List Rule := ProvedPermDefs ++ ProvedOrder
 
-def SpecAll (r : Rule) (s : SchemaD) (d : Doc) : Prop :=
+def SpecAll (r : Rule) (s : SchemaD) (fx : Fixes) (d : Doc) : Prop :=
   match r with
   | .fieldsOnCorrectType => Spec.fieldsOnCorrectType s d
   | .scalarLeafs => Spec.scalarLeafs s d
@@ -27,12 +32,13 @@ def SpecAll (r : Rule) (s : SchemaD) (d : Doc) : Prop :=
   | .fragmentsOnCompositeTypes => Spec.fragmentsOnCompositeTypes s d
   | .uniqueInputFieldNames => Spec.uniqueInputFieldNames d
   | .knownDirectives => Spec.knownDirectives s d
+  | .possibleFragmentSpreads => Spec.possibleFragmentSpreads s fx d
   | r => SpecOf r s d
 
 theorem rule_iff_all (s : SchemaD) (fx : Fixes) (d : Doc) (r : Rule) (hr : r ∈ ProvedAll) :
-    Silent s fx r d ↔ SpecAll r s d := by
-  simp only [ProvedAll, List.mem_append] at hr
-  rcases hr with hr | hr
+    Silent s fx r d ↔ SpecAll r s fx d := by
+  simp only [ProvedAll, ProvedPermDefs, List.mem_append] at hr
+  rcases hr with (hr | hr) | hr
   · have := rule_iff s fx d r hr
     simp only [Proved, List.mem_cons, List.not_mem_nil, or_false] at hr
     rcases hr with rfl | rfl | rfl | rfl | rfl | rfl | rfl | rfl | rfl | rfl <;> exact this
@@ -45,15 +51,18 @@ theorem rule_iff_all (s : SchemaD) (fx : Fixes) (d : Doc) (r : Rule) (hr : r ∈
     · exact rule_fragments_on_composite_types_iff s fx d
     · exact rule_unique_input_field_names_iff s fx d
     · exact rule_known_directives_iff s fx d
+  · simp only [ProvedOrder, List.mem_cons, List.not_mem_nil, or_false] at hr
+    subst hr
+    exact rule_possible_fragment_spreads_iff s fx d
 
-/-- **verdict_iff** for the conjunction of the 17 rules proved -/
+/-- **verdict_iff** for the conjunction of the 18 rules proved -/
 theorem verdict_iff_all_partial (s : SchemaD) (fx : Fixes) (d : Doc) :
-    (∀ r ∈ ProvedAll, Silent s fx r d) ↔ (∀ r ∈ ProvedAll, SpecAll r s d) :=
+    (∀ r ∈ ProvedAll, Silent s fx r d) ↔ (∀ r ∈ ProvedAll, SpecAll r s fx d) :=
   forall_congr' fun r => forall_congr' fun hr => rule_iff_all s fx d r hr
 
-/-- **attribution** over the 17 rules proved (on the rules run alone; see `attribution_partial`) -/
+/-- **attribution** over the 18 rules proved (on the rules run alone; see `attribution_partial`) -/
 theorem attribution_all_partial (s : SchemaD) (fx : Fixes) (d : Doc) (r : Rule) (hr : r ∈ ProvedAll)
-    (hbad : ¬ SpecAll r s d) (hothers : ∀ r' ∈ ProvedAll, r' ≠ r → SpecAll r' s d) :
+    (hbad : ¬ SpecAll r s fx d) (hothers : ∀ r' ∈ ProvedAll, r' ≠ r → SpecAll r' s fx d) :
     0 < E (alone s fx r d) ∧ ∀ r' ∈ ProvedAll, r' ≠ r → E (alone s fx r' d) = 0 := by
   refine ⟨Nat.pos_of_ne_zero fun h0 => hbad ((rule_iff_all s fx d r hr).mp h0), fun r' hr' hne => ?_⟩
   exact (rule_iff_all s fx d r' hr').mpr (hothers r' hr' hne)
@@ -61,11 +70,13 @@ theorem attribution_all_partial (s : SchemaD) (fx : Fixes) (d : Doc) (r : Rule) 
 theorem typedNodes_perm (s : SchemaD) {d d' : Doc} (h : d.defs.Perm d'.defs) (p : Node × View) :
     p ∈ typedNodes s d ↔ p ∈ typedNodes s d' := (h.flatMap_right _).mem_iff
 
-/-- **perm_definitions** for all 17 rules proved -/
+/-- **perm_definitions** for 17 of the 18 rules proved (`PossibleFragmentSpreads` reads the type condition of the LAST
+    definition of a fragment name, so with duplicate fragment names its predicate depends on the order) -/
 theorem perm_definitions_all_partial (s : SchemaD) (fx : Fixes) {d d' : Doc} (h : d.defs.Perm d'.defs) (r : Rule)
-    (hr : r ∈ ProvedAll) : Silent s fx r d ↔ Silent s fx r d' := by
-  rw [rule_iff_all s fx d r hr, rule_iff_all s fx d' r hr]
-  simp only [ProvedAll, List.mem_append] at hr
+    (hr : r ∈ ProvedPermDefs) : Silent s fx r d ↔ Silent s fx r d' := by
+  have hr' : r ∈ ProvedAll := by simp only [ProvedAll, List.mem_append]; exact Or.inl hr
+  rw [rule_iff_all s fx d r hr', rule_iff_all s fx d' r hr']
+  simp only [ProvedPermDefs, List.mem_append] at hr
   rcases hr with hr | hr
   · have := spec_perm_definitions s h r hr
     simp only [Proved, List.mem_cons, List.not_mem_nil, or_false] at hr
